@@ -9,24 +9,60 @@ embedded in case files that Coq evaluates against `deser_model` / `ser_model`.  
 (use-def/ownership invariants I1-I7 through public accessors, re-serialization fixpoint, no file access)
 runs on every case and searches a concrete failing proto when a proof or the correspondence breaks.
 
-LOG (decisions; see also the final report)
-* Theorems (C17/Property.v): C17_deser_total (deser_model is a total Gallina function: structural recursion
-  on the proto, no fuel; Python's recursion limit is modelled-not-verified), C17_consistent (no
-  well-formedness hypothesis), C17_names / fixpoint results: see Property.v for what is full and `_partial`.
+LOG (decisions)
+* Theorems (coq/theories/C17/Property.v, all "Closed under the global context"):
+  - C17_deser_total: deser_model is a total Gallina function (structural recursion on the mutually inductive
+    proto, no fuel) = termination for every proto incl. cyclic/unsorted nodes, dangling/duplicated/empty names.
+    Python's recursion limit on deep nesting is modelled-not-verified (it raises = an allowed outcome).
+  - C17_consistent (FULL, no well-formedness hypothesis): deser_model p = Ok (h, m) -> Inv h, Inv = C01's I1-I7
+    (C03/Inv.v).  Proof: C17/OpNode.v (Node.__init__), OpGraph.v (Graph.__init__), Steps.v/Phases.v (scope
+    invariant st_ok: every table entry is name-consistent, unowned, allocated after the scope base; values
+    named outside the scope's output names keep producer None), Deser.v (mutual induction over the proto),
+    Top.v (functions, model).  The two facts the code does NOT check dynamically and the proof supplies:
+    the outputs of one node are pairwise distinct values; initializer values never get a producer.
+  - C17_deser_function_of_proto: the outcome depends on the proto only (the model has no file-system part).
+  - C17_ser_fixpoint is NOT proved (stated in Property.v); it is evaluated on every case inside Coq
+    (Canon.model_fixpoint) and compared with the implementation.  It WAS refuted by the faithful model:
+    finding fixpoint-initializer-empty-value-info (type-less value_info entry naming an initializer), fixed
+    in /repo by 420823a (proposed_fixes/C17-initializer-empty-value-info.diff); Model.fill_pay follows the fix,
+    the witness is corpus/C17/fixpoint-initializer-empty-value-info.json and an Example in Property.v.
+* Tie: correspondence on every run (quick 500 cases + corpus, thorough 12000): mutation stream over generated
+  valid protos (28 field-level mutation kinds, 1-5 per case: rename to existing/empty/new names, drop, duplicate,
+  shuffle/reverse/cyclic nodes, unknown enum values in elem_type/data_type/attribute type, inconsistent tensor
+  fields, absurd external-data entries, invalid UTF-8 in bytes fields, cleared/map/sequence-without-elem types,
+  repeated outputs, outputs named like inputs/initializers, nodes moved into subgraphs, scope shadowing,
+  duplicated/unnamed initializers, duplicate attributes/functions, unknown function outputs, ref_attr_name on
+  graph attributes), byte-level mutations parsed by protobuf first, and unconstrained random protos.
+  Compared inside Coq per case: raise-vs-return, Canon.canon of the returned IR (every public link with
+  first-visit labels incl. uses order, producer/index, flags, owner, const tensor, payload), the re-serialized
+  proto, and the model's fixpoint verdict against the implementation's.
 * Reading of "raises": any exception type (SerdeError wraps everything); only raise-vs-return is compared.
 * Reading of "consistent": C01's I1-I7 restricted to what public accessors show (Value.graph falls back to
   the producer's graph, so I7 is checked for producer-less values; ref-counts of the IO lists are not
   observable).  Objects checked: everything reachable from the model plus consumer nodes found via uses().
 * Reading of "serializes to itself": q = to_proto(from_proto(p)); from_proto(q) must not raise and
   to_proto(from_proto(q)) == q (protobuf message equality).
-* File access: sys.addaudithook (open, os.*, mmap events) + rebinding os.stat/os.lstat/os.open during
-  from_proto and during name/dtype/shape/size inspection of every tensor; paths of the Python installation
-  and of the source tree are ignored (lazy imports).
+* File access: sys.addaudithook (open, os.*, mmap, shutil, pathlib, glob events) + rebinding
+  os.stat/os.lstat/os.open during from_proto and during name/dtype/shape/size inspection of every tensor;
+  paths of the Python installation and of the source tree are ignored (lazy imports).  A tensor accessor that
+  RAISES (unknown dtype) is not a file access and is only recorded.
 * Modelled-not-verified: leaf payloads (tensor contents, type/shape protos, plain attributes, metadata) are
-  tokens computed by the library's own leaf (de)serializers; quantization annotations, device
-  configurations, metadata merge when value info is applied twice and the IR<10 experimental function
-  value-info format are left out of the model (cases using them skip the Coq comparison, the oracle still
-  runs); Python recursion limit.
+  tokens computed by the library's own leaf (de)serializers, incl. the norm table (payload after a leaf
+  round trip), the fill table (value_info payload completed from a tensor) and the "re-serialization of this
+  attribute raises" flag; quantization annotations, device configurations, metadata merge when value info is
+  applied twice to one value, the IR<10 experimental function value-info format and string fields holding
+  invalid UTF-8 (protobuf returns bytes) are left out of the model (such cases skip the Coq comparison and are
+  counted under coverage["unmodelled"]; the oracle still runs on them); NameAuthority never renames during
+  deserialization because every name is a str; Python recursion limit.
+* Mutants of /repo tried in a scratch worktree (VERIF_REPO), seed 0, all reported VIOLATION:
+  M1 _declare_node_outputs without the redeclaration check -> oracle I2 (repeated output) + fixpoint, concrete replay;
+  M2 input lookup through scoped_values without reversed() -> correspondence:deser (no property violation:
+     the IR stays consistent), no-failing-input-found;
+  M3 placeholder value not registered in the scope -> correspondence:deser, no-failing-input-found;
+  M4 Node.__init__ skips the usage of the last input when there are >2 inputs -> oracle I1, concrete replay;
+  M5 GraphInitializers._set_graph does not flag a value that is already a graph input -> oracle I5, concrete replay;
+  M6 _remove_trailing_outputs off by one -> oracle fixpoint, concrete replay;
+  M7 ExternalTensor.__init__ probes the file (os.path.exists/getsize) -> oracle file access, concrete replay.
 """
 
 from __future__ import annotations
@@ -871,20 +907,23 @@ def correspondence(ck, terms: list, tag: str) -> tuple:
             "Eval vm_compute in (failing (fun c => let '(np, p, o, r, f) := c in agree_deser p o) cases).\n"
             "Eval vm_compute in (failing (fun c => let '(np, p, o, r, f) := c in agree_reser np p r) cases).\n"
             "Eval vm_compute in (failing (fun c => let '(np, p, o, r, f) := c in\n"
-            "   match r with Some (Some _) => Bool.eqb (model_fixpoint np p) f | _ => true end) cases).\n")
+            "   match r with Some (Some _) => Bool.eqb (model_fixpoint np p) f | _ => true end) cases).\n"
+            "Eval vm_compute in (failing (fun c => let '(np, p, o, r, f) := c in\n"
+            "   match deser_model p with Ok (h, _) => inv_b h | Raise _ => true end) cases).\n")
         files.append((f"{tag}_{i // chunk}", text))
     outs = ck.coq_eval_many(files)
-    bad_d, bad_r, bad_f = [], [], []
+    bad_d, bad_r, bad_f, bad_i = [], [], [], []
     for k, (rc, out) in enumerate(outs):
         if rc != 0:
             raise RuntimeError(f"case file {files[k][0]} did not compile:\n{out[-3000:]}")
         ls = _parse_lists(out)
-        if len(ls) != 3:
+        if len(ls) != 4:
             raise RuntimeError("unexpected coq output:\n" + out[-2000:])
         bad_d += [k * chunk + j for j in ls[0]]
         bad_r += [k * chunk + j for j in ls[1]]
         bad_f += [k * chunk + j for j in ls[2]]
-    return bad_d, bad_r, bad_f
+        bad_i += [k * chunk + j for j in ls[3]]
+    return bad_d, bad_r, bad_f, bad_i
 
 
 # --------------------------------------------------------------------------- shrinking / search
@@ -1001,6 +1040,8 @@ def run(ck) -> None:
              "modelled not verified: Python recursion limit (deser_model is structurally recursive, no depth bound); "
              "quantization annotations, device configurations, IR<10 function value-info format, metadata merge")
     ck.assumptions += ["onnx/protobuf as installed in /venv", "CPython audit events cover open/os.*/mmap"]
+    ck.notes.append("C17_ser_fixpoint is not proved: evaluated per case in Coq (Canon.model_fixpoint) and compared "
+                    "with the implementation; C17_consistent / C17_deser_total are proved for all protos")
     ck.coverage["rule"] = ("non-trivial = proto with a structural defect (mutated/random) that the deserializer "
                            "accepts, or a nested scope / placeholder / redeclaration path")
     ck.prove("C17")
@@ -1043,12 +1084,13 @@ def run(ck) -> None:
                        "reser": res["reser"][0] if res["reser"] else None})
     ck.coverage["traces_validated_against_impl"] = len(terms)
     try:
-        bad_d, bad_r, bad_f = correspondence(ck, terms, "c17")
+        bad_d, bad_r, bad_f, bad_i = correspondence(ck, terms, "c17")
     except RuntimeError as e:
-        bad_d, bad_r, bad_f = [], [], []
+        bad_d, bad_r, bad_f, bad_i = [], [], [], []
         ck.broken("correspondence:case-files", str(e))
     diverging = []
-    for kind, lst in (("deser", bad_d), ("reser", bad_r), ("model-fixpoint", bad_f)):
+    # inv_b on the model's own result: must hold by C17_consistent; a failure means Inv.inv_b and Inv drifted apart
+    for kind, lst in (("deser", bad_d), ("reser", bad_r), ("model-fixpoint", bad_f), ("model-inv_b", bad_i)):
         for j in lst[:3]:
             p, desc, res = cases[term_idx[j]]
             diverging.append(p)
